@@ -69,6 +69,18 @@ def gen_stream():
     return True, ""
 
 
+def gen_loops():
+    """mini/ifthenelse.go, mini/once.go -> coq/gen/LoopsGen.v (the stream dialect of genmicro over the loops of IfThenElseO / OnceO; needs gen/StreamGen.v)."""
+    ok, msg = gen_stream()
+    if not ok:
+        return ok, msg
+    binp = os.path.join(vc.BUILD, "genmicro")
+    rc, out = vc.run([binp, "-loops", vc.REPO, os.path.join(vc.COQ, "gen")], cwd=vc.VERIF, timeout=120, env=vc.GOENV)
+    if rc != 0:
+        return False, "genmicro -loops: " + out[-1500:]
+    return True, ""
+
+
 def gen_mini():
     """mini/disj.go, conj.go, conde.go -> coq/gen/MiniGen.v (the mini dialect of genmicro: combinators as functions from goal lists to goal terms)."""
     os.makedirs(vc.BUILD, exist_ok=True)
